@@ -262,7 +262,29 @@ def gen_c06(r, tier):
         if ops[-1]['via'] == 'file' and r.chance(0.6):
             # the user keeps rewriting one constraints file
             ops[-1]['tdda_name'] = r.pick(['constraints.tdda', 'c.tdda'])
-    return {'config': {'frames': [spec]}, 'ops': ops}
+    frames = [spec]
+    if r.chance(0.3):
+        # another table handled earlier in the same process has columns of
+        # the same names but other types (an "events" table whose `when` is
+        # a timestamp, a "summary" table whose `when` is a number)
+        other = gf.gen_frame(r, kinds=[(3, 'dt_ns'), (1, 'dt_s'), (2, 'int'),
+                                       (2, 'str'), (1, 'float')])
+        names = [c['name'] for c in spec['columns']]
+        r.shuffle(names)
+        for c, nm in zip(other['columns'], names):
+            c['name'] = nm
+        seen = set()
+        other['columns'] = [c for c in other['columns']
+                            if not (c['name'] in seen or seen.add(c['name']))]
+        frames.append(other)
+        pre = []
+        for _ in range(r.randint(1, 2)):
+            pre.append({'op': r.pick(['detect', 'verify']), 'client': 'B',
+                        'frame': 1, 'cs_inline': gcs.near_miss(r, other),
+                        'via': 'dict', 'repair': True,
+                        'opts': {'per_constraint': r.chance(0.5)}})
+        ops = pre + ops
+    return {'config': {'frames': frames}, 'ops': ops}
 
 
 def gen_plan(prop, r, tier, run):
